@@ -202,6 +202,29 @@ def kernels_direct(c):
     return d <= 1e-12 * scale
 
 
+def input_forms_ok(c):
+    """The same integer-valued residual handed over as complex128, float64 and int64 Field
+    (no frequency of its own) must restrict to the same coarse residual: the coarse source
+    field takes its type from the SOURCE field, so nothing may be truncated."""
+    import emg3d
+    import emg3d.solver as S
+    grid = c['grid']
+    n = c['res'].field.size
+    ints = (np.arange(n) * 7919 % 23 - 11).astype(np.int64)
+    outs = []
+    dts = (np.complex128, np.float64, np.int64) if c['cplx'] else (np.float64, np.int64)
+    for dt in dts:
+        r = emg3d.Field(grid, ints.astype(dt))
+        cm, csf, cef = S.restriction(c['vmodel'], c['sfield'], r, c['sc'])
+        outs.append(np.array(csf.field, dtype=complex))
+    ref = outs[0]
+    for o, nm in zip(outs[1:], [np.dtype(d).name for d in dts[1:]]):
+        if np.max(np.abs(o - ref)) > 1e-12 * max(1.0, float(np.max(np.abs(ref)))):
+            k = int(np.argmax(np.abs(o - ref)))
+            return f"residual given as {nm} Field: coarse value {o[k]} but {ref[k]} for the same data as {np.dtype(dts[0]).name}"
+    return None
+
+
 def correspondence(ctx):
     rng = ctx.rng
     n = 42 if ctx.thorough else 14
@@ -219,6 +242,11 @@ def correspondence(ctx):
         if np.max(np.abs(cef.field)) != 0:
             dis.append({'what': 'coarse electric field not initialised to zero',
                         'case': {'sc': c['sc'], 'shape': list(c['shape'])}})
+        if i < 7:
+            bad_form = input_forms_ok(c)
+            if bad_form:
+                dis.append({'what': 'restriction depends on the form (dtype) of the residual: ' + bad_form,
+                            'case': {'sc': c['sc'], 'shape': list(c['shape'])}})
         if not kernels_direct(c):
             dis.append({'what': 'core.restrict compiled differs from its .py_func',
                         'case': {'sc': c['sc'], 'shape': list(c['shape'])}})
@@ -305,6 +333,12 @@ def search_case(rng, sc, cplx, seed=None):
         f.fy[0, :, :] = f.fy[-1, :, :] = f.fy[:, :, 0] = f.fy[:, :, -1] = 0
         f.fz[0, :, :] = f.fz[-1, :, :] = f.fz[:, 0, :] = f.fz[:, -1, :] = 0
         return f.field.real != 0
+    # the same residual in another input form (dtype) restricts to the same coarse residual
+    bad_form = input_forms_ok(dict(grid=grid, res=emg3d.Field(grid, frequency=freq), vmodel=vmodel,
+                                   sfield=sfield, sc=sc, cplx=cplx))
+    if bad_form:
+        return dict(signature='restriction depends on the input form (dtype) of the residual',
+                    **base, observed=bad_form)
     res0 = emg3d.Field(grid, frequency=freq)
     cm, csf, _ = S.restriction(vmodel, sfield, res0, sc)
     cg = cm.grid
